@@ -3,3 +3,5 @@ import AikenVerif.Props.C15
 import AikenVerif.Props.C03
 import AikenVerif.Props.C05
 import AikenVerif.Props.C16
+import AikenVerif.Props.C08
+import AikenVerif.Props.C20
